@@ -86,7 +86,7 @@ pub fn on_node(kind: u8, g: &Game, depth: u8, alpha: i32, beta: i32, e: &SearchE
 
 pub fn on_tt_hit(score: i32) { ev(&format!("TTHIT {}", score)); }
 pub fn on_rep_hit() { ev("REPHIT"); }
-pub fn on_verdict(in_check: bool) { ev(&format!("VERDICT {}", if in_check { "mate" } else { "stalemate" })); }
+pub fn on_verdict(in_check: bool, ply: u8) { ev(&format!("VERDICT {} {}", if in_check { "mate" } else { "stalemate" }, ply)); }
 pub fn on_pv_insert(ply: usize, m: Move) { ev(&format!("PV {} {}", ply, move_fields(&m))); }
 pub fn on_tt_record(hash: u64, score: i32, depth: u8, flag: HashFlag, ply: u8) {
     let tr = HS.with(|h| h.borrow().trace);
@@ -332,6 +332,83 @@ fn do_eval(t: &[&str]) -> String {
     format!("{}", evaluate(&g))
 }
 
+// ---- stdout capture (the engine prints info/bestmove lines with print!) ----
+extern "C" { fn dup(fd: i32) -> i32; fn dup2(a: i32, b: i32) -> i32; fn close(fd: i32) -> i32; }
+
+fn capture_stdout<F: FnOnce()>(f: F) -> (String, bool) {
+    use std::os::unix::io::AsRawFd;
+    let dir = std::env::var("JENCE_VERIF_TMP").unwrap_or("/tmp".to_string());
+    let path = format!("{}/jence-cap-{}.txt", dir, std::process::id());
+    std::io::stdout().flush().unwrap();
+    let file = std::fs::File::create(&path).unwrap();
+    let saved = unsafe { dup(1) };
+    unsafe { dup2(file.as_raw_fd(), 1); }
+    let r = std::panic::catch_unwind(std::panic::AssertUnwindSafe(f));
+    let _ = std::io::stdout().flush();
+    unsafe { dup2(saved, 1); close(saved); }
+    drop(file);
+    let text = std::fs::read_to_string(&path).unwrap_or_default();
+    let _ = std::fs::remove_file(&path);
+    (text, r.is_ok())
+}
+
+fn fnv(s: &str) -> u64 {
+    let mut h: u64 = 0xcbf29ce484222325;
+    for b in s.bytes() { h ^= b as u64; h = h.wrapping_mul(0x100000001b3); }
+    h
+}
+
+fn mask_time(line: &str) -> String {
+    // "... time 123 pv ..." -> "... time T pv ..."
+    let toks: Vec<&str> = line.split(' ').collect();
+    let mut out: Vec<String> = Vec::new();
+    let mut i = 0;
+    while i < toks.len() {
+        if toks[i] == "time" && i + 1 < toks.len() { out.push("time".to_string()); out.push("T".to_string()); i += 2; }
+        else { out.push(toks[i].to_string()); i += 1; }
+    }
+    out.join(" ")
+}
+
+// searchseq N { D S X B T H k1..kH <game> } x N : searches sharing one (initially empty) transposition table
+fn do_searchseq(t: &[&str], tt: &mut TranspositionTable) -> String {
+    let n: usize = t[0].parse().unwrap();
+    let mut i = 1;
+    let mut answers: Vec<String> = Vec::new();
+    tt.clear();
+    for _ in 0..n {
+        let depth: i8 = t[i].parse().unwrap();
+        let stop_at: i64 = t[i + 1].parse().unwrap();
+        let extra: u64 = t[i + 2].parse().unwrap();
+        let bypass = t[i + 3] == "1";
+        let trace: u8 = t[i + 4].parse().unwrap();
+        let nh: usize = t[i + 5].parse().unwrap();
+        i += 6;
+        let mut rep = RepetitionTable::new();
+        for k in 0..nh { rep.insert(hx(t[i + k])); }
+        i += nh;
+        let mut game = parse_game(&t[i..i + GAME_TOKENS]);
+        i += GAME_TOKENS;
+        let before = game_fields(&game);
+        let rep_before: Vec<u64> = rep.table[..rep.index].to_vec();
+        HS.with(|h| { let mut h = h.borrow_mut();
+            h.active = true; h.trace = trace > 0; h.stop_at = stop_at; h.extra_every = extra; h.npolls = 0; h.stop_raised = false;
+            h.bypass_tt = bypass; h.intercept = false; h.events.clear(); h.nevents = 0; h.end.clear(); });
+        let io = IoWrapper::verif_detached();
+        let (text, ok) = capture_stdout(|| { search(&mut game, depth, -1, &io, tt, &mut rep); });
+        let (events, nev, end) = HS.with(|h| { let mut h = h.borrow_mut(); h.active = false; h.trace = false; h.bypass_tt = false;
+            (std::mem::take(&mut h.events), h.nevents, std::mem::take(&mut h.end)) });
+        let native: Vec<String> = text.lines().map(|l| mask_time(l)).collect();
+        let same = (game_fields(&game) == before) as u8;
+        let rep_same = (rep.index == nh && rep.table[..nh] == rep_before[..]) as u8;
+        let mut a = format!("{} || {} GAME_SAME={} REP_SAME={}{} || ", native.join(" ;; "), end, same, rep_same, if ok { "" } else { " PANIC" });
+        if trace == 2 { a.push_str(&events.trim_end().replace("\n", " ;; ")); }
+        else if trace == 1 { write!(a, "NEV={} H={:x}", nev, fnv(&events)).unwrap(); }
+        answers.push(a);
+    }
+    answers.join(" ## ")
+}
+
 fn do_batch() {
     let stdin = std::io::stdin();
     let stdout = std::io::stdout();
@@ -346,6 +423,7 @@ fn do_batch() {
             "tt" => do_tt(&toks[1..], &mut tt),
             "go" => do_go(&toks[1..], &mut tt),
             "att" => do_att(&toks[1..]),
+            "searchseq" => do_searchseq(&toks[1..], &mut tt),
             "pos" => { let tk: Vec<String> = toks[1..].iter().map(|x| x.to_string()).collect(); catch(move || { let r: Vec<&str> = tk.iter().map(|x| x.as_str()).collect(); do_pos(&r) }) },
             "perft" => { let tk: Vec<String> = toks[1..].iter().map(|x| x.to_string()).collect(); catch(move || { let r: Vec<&str> = tk.iter().map(|x| x.as_str()).collect(); do_perft(&r) }) },
             "eval" => { let tk: Vec<String> = toks[1..].iter().map(|x| x.to_string()).collect(); catch(move || { let r: Vec<&str> = tk.iter().map(|x| x.as_str()).collect(); do_eval(&r) }) },
